@@ -1512,8 +1512,9 @@ package spec
 //@ opaque PathItem, Response, Schema, Items, Parameter, Header, Operation, Info, ContactInfo, License, Tag, Responses, Paths, SecurityScheme, ExternalDocumentation, XMLObject, Swagger, SchemaOrBool, SchemaOrArray, StringOrArray, SchemaOrStringArray
 
 // ---- Paths: a map of path items flattened beside the extensions
-//@ axiom forall b []byte :: jsonValue(b) == decOf("interface{}", jv(b))
-//@ axiom forall b []byte :: jsonOK(b) == decOKOf("interface{}", jv(b))
+// (for well-formed texts only: bytes a document loader returns need not be JSON at all, and then decoding fails)
+//@ axiom forall b []byte :: triggers(jsonValue(b)) && (jWF(b) ==> jsonValue(b) == decOf("interface{}", jv(b)))
+//@ axiom forall b []byte :: triggers(jsonOK(b)) && (jWF(b) ==> jsonOK(b) == decOKOf("interface{}", jv(b)))
 // an extension key starts with x or X, a path key with a slash
 //@ axiom forall k string :: triggers(isExtKey(k)) && (isExtKey(k) ==> !hasPrefix(k, "/"))
 //@ define isPathKey(k string) bool = hasPrefix(k, "/")
@@ -1528,7 +1529,7 @@ package spec
 //@   ensures  [C07] only-extensions-added @@ forall k string :: has(p.Extensions, k) && !old(has(p.Extensions, k)) ==> isExtKey(k) && oCnt(jv(data), k) > 0
 //@   ensures  [C07] non-object-is-error @@ !isObj(jv(data)) ==> result != nil
 //@   ensures  [C07] decodable-object-accepted @@ isObj(jv(data)) && (forall k string :: oCnt(jv(data), k) > 0 ==> (isExtKey(k) ==> decOKOf("interface{}", oVal(jv(data), k))) && (isPathKey(k) ==> decOKOf("PathItem", oVal(jv(data), k)))) ==> result == nil
-//@   loop 0 invariant res != nil && (forall k string :: has(res, k) == (oCnt(jv(data), k) > 0)) && (forall k string :: has(res, k) ==> jv(res[k]) == oVal(jv(data), k))
+//@   loop 0 invariant res != nil && (forall k string :: has(res, k) == (oCnt(jv(data), k) > 0)) && (forall k string :: has(res, k) ==> jv(res[k]) == oVal(jv(data), k) && jWF(res[k]))
 //@   loop 0 invariant (p.Extensions == old(p.Extensions) || (old(p.Extensions) == nil && fresh(p.Extensions))) && (p.Extensions == nil ==> (forall k string :: !($seen0[k] && isExtKey(k))))
 //@   loop 0 invariant (p.Paths == old(p.Paths) || (old(p.Paths) == nil && fresh(p.Paths))) && (p.Paths == nil ==> (forall k string :: !($seen0[k] && isPathKey(k))))
 //@   loop 0 invariant forall k string :: $seen0[k] && isExtKey(k) ==> has(p.Extensions, k) && p.Extensions[k] == decOf("interface{}", oVal(jv(data), k))
@@ -1891,9 +1892,12 @@ package spec
 //@ ghost gobPadAlias smt:(Array Int S_SwaggerProps)
 //@ ghost gobOpPad smt:(Array Int S_gobAlias)
 //@ ghost gobOpPadAlias smt:(Array Int S_OperationProps)
+// the contents of a padded security requirement list as sent: [stream][position][scheme name] -> present / number of scopes
+//@ ghost gobSecDom smt:(Array Int (Array Int (Array String Bool)))
+//@ ghost gobSecLLen smt:(Array Int (Array Int (Array String Int)))
 //@ ext (*encoding/gob.Encoder).Encode
 //@   params e, v
-//@   assigns ghost(gobVal, gobProps, gobExt, gobOpProps, gobPad, gobPadAlias, gobOpPad, gobOpPadAlias)
+//@   assigns ghost(gobVal, gobProps, gobExt, gobOpProps, gobPad, gobPadAlias, gobOpPad, gobOpPadAlias, gobSecDom, gobSecLLen)
 //@   ensures holds(v, "[]byte") ==> result == nil && gobVal == upd(old(gobVal), encSink(e), jv(asValue(v, "[]byte")))
 //@   ensures holds(v, "struct{Props SwaggerProps; Ext VendorExtensible}") && result == nil ==>
 //@             gobProps[encSink(e)] == asValue(v, "struct{Props SwaggerProps; Ext VendorExtensible}").Props && gobExt[encSink(e)] == asValue(v, "struct{Props SwaggerProps; Ext VendorExtensible}").Ext
@@ -1903,6 +1907,10 @@ package spec
 //@             && (asValue(v, "gobSwaggerPropsAlias").Alias != nil ==> gobPadAlias[encSink(e)] == *asValue(v, "gobSwaggerPropsAlias").Alias)
 //@   ensures holds(v, "gobAlias") && result == nil ==> gobOpPad[encSink(e)] == asValue(v, "gobAlias")
 //@             && (asValue(v, "gobAlias").Alias != nil ==> gobOpPadAlias[encSink(e)] == *asValue(v, "gobAlias").Alias)
+//@   ensures holds(v, "gobSwaggerPropsAlias") && result == nil ==> (forall i int, k string :: triggers(has(asValue(v, "gobSwaggerPropsAlias").Security[i], k)) && (0 <= i && i < len(asValue(v, "gobSwaggerPropsAlias").Security) ==>
+//@             gobSecDom[encSink(e)][i][k] == has(asValue(v, "gobSwaggerPropsAlias").Security[i], k) && gobSecLLen[encSink(e)][i][k] == len(asValue(v, "gobSwaggerPropsAlias").Security[i][k].List)))
+//@   ensures holds(v, "gobAlias") && result == nil ==> (forall i int, k string :: triggers(has(asValue(v, "gobAlias").Security[i], k)) && (0 <= i && i < len(asValue(v, "gobAlias").Security) ==>
+//@             gobSecDom[encSink(e)][i][k] == has(asValue(v, "gobAlias").Security[i], k) && gobSecLLen[encSink(e)][i][k] == len(asValue(v, "gobAlias").Security[i][k].List)))
 // the bytes of a buffer name the stream they were taken from; a buffer made from bytes reads that stream
 //@ specfn gobStream([]byte) ptr
 //@ ghost bufStream smt:(Array Int Int)
@@ -1953,10 +1961,16 @@ package spec
 //@             && (asPtr(v, "*gobSwaggerPropsAlias").Alias != nil) == (gobPad[streamOf(d)].Alias != nil)
 //@             && (asPtr(v, "*gobSwaggerPropsAlias").Alias != nil ==> freshObj(asPtr(v, "*gobSwaggerPropsAlias").Alias) && *asPtr(v, "*gobSwaggerPropsAlias").Alias == gobrtSwaggerAlias(gobPadAlias[streamOf(d)]))
 //@             && len(asPtr(v, "*gobSwaggerPropsAlias").Security) == len(gobPad[streamOf(d)].Security)
+//@   ensures holds(v, "*gobSwaggerPropsAlias") && result == nil ==> (forall i int :: triggers(addr(asPtr(v, "*gobSwaggerPropsAlias").Security[i])) && (0 <= i && i < len(asPtr(v, "*gobSwaggerPropsAlias").Security) ==> freshObj(asPtr(v, "*gobSwaggerPropsAlias").Security[i])))
+//@   ensures holds(v, "*gobSwaggerPropsAlias") && result == nil ==> (forall i int, k string :: triggers(has(asPtr(v, "*gobSwaggerPropsAlias").Security[i], k)) && (0 <= i && i < len(asPtr(v, "*gobSwaggerPropsAlias").Security) ==>
+//@             has(asPtr(v, "*gobSwaggerPropsAlias").Security[i], k) == gobSecDom[streamOf(d)][i][k] && len(asPtr(v, "*gobSwaggerPropsAlias").Security[i][k].List) == gobSecLLen[streamOf(d)][i][k]))
 //@   ensures holds(v, "*gobAlias") && result == nil ==> asPtr(v, "*gobAlias").SecurityIsEmpty == gobOpPad[streamOf(d)].SecurityIsEmpty
 //@             && (asPtr(v, "*gobAlias").Alias != nil) == (gobOpPad[streamOf(d)].Alias != nil)
 //@             && (asPtr(v, "*gobAlias").Alias != nil ==> freshObj(asPtr(v, "*gobAlias").Alias) && *asPtr(v, "*gobAlias").Alias == gobrtOpsAlias(gobOpPadAlias[streamOf(d)]))
 //@             && len(asPtr(v, "*gobAlias").Security) == len(gobOpPad[streamOf(d)].Security)
+//@   ensures holds(v, "*gobAlias") && result == nil ==> (forall i int :: triggers(addr(asPtr(v, "*gobAlias").Security[i])) && (0 <= i && i < len(asPtr(v, "*gobAlias").Security) ==> freshObj(asPtr(v, "*gobAlias").Security[i])))
+//@   ensures holds(v, "*gobAlias") && result == nil ==> (forall i int, k string :: triggers(has(asPtr(v, "*gobAlias").Security[i], k)) && (0 <= i && i < len(asPtr(v, "*gobAlias").Security) ==>
+//@             has(asPtr(v, "*gobAlias").Security[i], k) == gobSecDom[streamOf(d)][i][k] && len(asPtr(v, "*gobAlias").Security[i][k].List) == gobSecLLen[streamOf(d)][i][k]))
 
 //@ func verifLemmaRefGob
 //@   property C13, C14
@@ -2104,6 +2118,15 @@ package spec
 //@   ensures  [C14] strings-sent @@ result1 == nil ==> gobPadAlias[gobStream(result0)].Swagger == o.Swagger && gobPadAlias[gobStream(result0)].Host == o.Host && gobPadAlias[gobStream(result0)].BasePath == o.BasePath && gobPadAlias[gobStream(result0)].ID == o.ID
 //@   loop 0 invariant 0 <= $i0 && $i0 <= len(o.Security) && len(raw.Security) == $i0 && raw.Alias != nil && !raw.SecurityIsEmpty
 //@   loop 0 invariant len(raw.Alias.Security) == len(o.Security) && raw.Alias.Swagger == o.Swagger && raw.Alias.Host == o.Host && raw.Alias.BasePath == o.BasePath && raw.Alias.ID == o.ID
+//@   ensures  [C14] padded-contents-sent @@ result1 == nil && len(o.Security) > 0 ==> (forall i int, k string :: triggers(has(o.Security[i], k)) && (0 <= i && i < len(o.Security) ==>
+//@               gobSecDom[gobStream(result0)][i][k] == has(o.Security[i], k) && (has(o.Security[i], k) ==> gobSecLLen[gobStream(result0)][i][k] == len(o.Security[i][k]))))
+//@   loop 0 invariant [C14] raw.Security != nil && fresh(sliceArr(raw.Security)) && (forall i2 int :: triggers(addr(raw.Security[i2])) && (0 <= i2 && i2 < $i0 ==> freshObj(raw.Security[i2])))
+//@   loop 0 invariant [C14] forall i2 int, k string :: triggers(has(raw.Security[i2], k)) && (0 <= i2 && i2 < $i0 ==> has(raw.Security[i2], k) == has(o.Security[i2], k) && (has(o.Security[i2], k) ==> len(raw.Security[i2][k].List) == len(o.Security[i2][k])))
+//@   loop 1 invariant [C14] 0 <= $i0 && $i0 < len(o.Security) && len(raw.Security) == $i0 && raw.Alias != nil && !raw.SecurityIsEmpty && req == o.Security[$i0]
+//@   loop 1 invariant [C14] len(raw.Alias.Security) == len(o.Security) && raw.Alias.Swagger == o.Swagger && raw.Alias.Host == o.Host && raw.Alias.BasePath == o.BasePath && raw.Alias.ID == o.ID
+//@   loop 1 invariant [C14] raw.Security != nil && fresh(sliceArr(raw.Security)) && (forall i2 int :: triggers(addr(raw.Security[i2])) && (0 <= i2 && i2 < $i0 ==> freshObj(raw.Security[i2]) && raw.Security[i2] != v))
+//@   loop 1 invariant [C14] forall i2 int, k string :: triggers(has(raw.Security[i2], k)) && (0 <= i2 && i2 < $i0 ==> has(raw.Security[i2], k) == has(o.Security[i2], k) && (has(o.Security[i2], k) ==> len(raw.Security[i2][k].List) == len(o.Security[i2][k])))
+//@   loop 1 invariant [C14] v != nil && freshObj(v) && (forall k string :: triggers(has(v, k)) && (has(v, k) == $seen1[k] && ($seen1[k] ==> len(v[k].List) == len(req[k]))))
 
 //@ func (*SwaggerProps).GobDecode
 //@   property C14
